@@ -537,6 +537,25 @@ mut("C18", "line-after-cr", ("internal/parser/cedar_tokenize.go", '''	case '\\n'
 		s.column = 0
 	}'''))
 
+# ---- C10
+mut("C10", "scope-entity-nil-unchecked", ("internal/json/json_unmarshal.go", '''	case "in":
+		if s.Entity == nil {
+			return nil, fmt.Errorf("missing entity")
+		}
+		return ast.Scope{}.In(types.EntityUID(*s.Entity)), nil
+	case "is":''', '''	case "in":
+		return ast.Scope{}.In(types.EntityUID(*s.Entity)), nil
+	case "is":'''))
+mut("C10", "record-null-member", ("internal/json/json_unmarshal.go", '''		if v == nil {
+			return ast.Node{}, fmt.Errorf("error in record: missing value for key %q", k)
+		}''', ''''''))
+mut("C10", "pattern-literal-type-assertion", ("types/pattern.go", '''			literalStr, ok := literal.(string)
+			if !ok {
+				return fmt.Errorf(`%w: invalid "Literal" value "%v"`, errJSONInvalidPatternComponent, literal)
+			}''', '''			literalStr := literal.(string)'''))
+mut("C10", "method-receiver-indexed", ("internal/parser/cedar_marshal.go", "if info.IsMethod && len(n.Args) > 0 {", "if info.IsMethod {"))
+mut("C10", "entity-uid-unmarshal-short", ("types/entity_uid.go", '''	if len(quoted) < 2 || quoted[0] != '"' || quoted[len(quoted)-1] != '"' {''', '''	if quoted[0] != '"' || quoted[len(quoted)-1] != '"' {'''))
+
 # ---- C20
 mut("C20", "unmarshal-merges", ("policy_set.go", """	*p = PolicySet{
 		policies: make(PolicyMap, len(jsonPolicySet.StaticPolicies)),
